@@ -14,6 +14,7 @@ import (
 	"os"
 	"path/filepath"
 	"sync"
+	"sync/atomic"
 	"time"
 
 	"golang.org/x/crypto/pbkdf2"
@@ -155,6 +156,115 @@ func (e *eng) histsnap(n, more int) string {
 		if h.Id != ids[i] {
 			return fmt.Sprintf("bad:snapshot-entry-%d-changed-from-%s-to-%s", i, ids[i], h.Id)
 		}
+	}
+	return "ok"
+}
+
+// lmock is an rmock that notes, on a shared event counter, when it was admitted and when it was kicked.
+type lmock struct {
+	rmock
+	seq                *int64
+	joinedAt, kickedAt int64
+}
+
+func (m *lmock) Joined(group, kind string) error {
+	if kind == "join" {
+		m.mu.Lock()
+		m.joinedAt = atomic.AddInt64(m.seq, 1)
+		m.mu.Unlock()
+	}
+	return nil
+}
+func (m *lmock) Kick(id string, user *string, message string) error {
+	m.mu.Lock()
+	m.kickedAt = atomic.AddInt64(m.seq, 1)
+	m.mu.Unlock()
+	return nil
+}
+
+// leavejoin: the last operator of an autokick/autolock group leaves while a non-operator's slow
+// password check (PBKDF2 with many iterations) is in progress.  C10: whatever the interleaving,
+// a non-operator is admitted only while an operator is present (autokick), and once the operator
+// has left, every non-operator still in an autokick group has been kicked and an autolock group is
+// locked.  The verdict needs no model: if DelClient(operator) has returned before the joiner's
+// admission, no operator was present when it was admitted.
+func (e *eng) leavejoin(kind string, iterations int) string {
+	raceSeq++
+	name := fmt.Sprintf("lj%d", raceSeq)
+	salt := []byte{8, 7, 6, 5, 4, 3, 2, 1}
+	key := pbkdf2.Key([]byte("slow"), salt, iterations, 32, sha256.New)
+	desc := map[string]interface{}{
+		kind: true,
+		"users": map[string]interface{}{
+			"o": map[string]interface{}{"password": "po", "permissions": "op"},
+			"u": map[string]interface{}{
+				"password": map[string]interface{}{"type": "pbkdf2", "hash": "sha-256",
+					"key": hex.EncodeToString(key), "salt": hex.EncodeToString(salt), "iterations": iterations},
+				"permissions": "present",
+			},
+		},
+	}
+	b, _ := json.Marshal(desc)
+	file := filepath.Join(e.dir, name+".json")
+	if err := os.WriteFile(file, b, 0600); err != nil {
+		return "env:" + err.Error()
+	}
+	defer os.Remove(file)
+	var seq int64
+	o := &lmock{rmock: rmock{id: "op"}, seq: &seq}
+	j := &lmock{rmock: rmock{id: "joiner"}, seq: &seq}
+	uo, uj := "o", "u"
+	g, err := group.AddClient(name, o, group.ClientCredentials{Username: &uo, Password: "po"})
+	if err != nil {
+		return "env:opjoin:" + err.Error()
+	}
+	o.mu.Lock()
+	o.g = g
+	o.mu.Unlock()
+	jdone := make(chan error, 1)
+	go func() {
+		gg, err := group.AddClient(name, j, group.ClientCredentials{Username: &uj, Password: "slow"})
+		if err == nil {
+			j.mu.Lock()
+			j.g = gg
+			j.mu.Unlock()
+		}
+		jdone <- err
+	}()
+	time.Sleep(5 * time.Millisecond) // the joiner is now (most likely) hashing
+	group.DelClient(o)
+	delAt := atomic.AddInt64(&seq, 1)
+	jerr := <-jdone
+	locked, _ := g.Locked()
+	member := false
+	for _, c := range g.GetClients(nil) {
+		if c == group.Client(j) {
+			member = true
+		}
+	}
+	// autoLockKick kicks from a goroutine of its own: give it time before concluding that nobody was kicked
+	var joinedAt, kickedAt int64
+	for deadline := time.Now().Add(2 * time.Second); ; {
+		j.mu.Lock()
+		joinedAt, kickedAt = j.joinedAt, j.kickedAt
+		j.mu.Unlock()
+		if !(member && kind == "autokick" && kickedAt == 0) || time.Now().After(deadline) {
+			break
+		}
+		time.Sleep(time.Millisecond)
+	}
+	if member {
+		group.DelClient(j)
+	}
+	group.Delete(name)
+	if jerr == nil && joinedAt > delAt {
+		return fmt.Sprintf("bad:%s:non-operator-admitted-after-the-last-operator's-DelClient-had-returned", kind)
+	}
+	if member && kind == "autokick" && kickedAt == 0 {
+		return "bad:autokick:operator-gone,non-operator-still-a-member-and-never-kicked"
+	}
+	if member && kind == "autolock" && !locked {
+		return "bad:autolock:operator-gone,non-operator-present,group-not-locked"
 	}
 	return "ok"
 }
